@@ -256,8 +256,12 @@ class TemplateLookup(TemplateCollection):
         """Adjust the given ``uri`` based on the given relative URI."""
 
         key = (uri, relativeto)
-        if key in self._uri_cache:
+        try:
+            # not "if key in ...": with a size-limited collection another
+            # thread may evict the entry in between
             return self._uri_cache[key]
+        except KeyError:
+            pass
 
         if uri[0] == "/":
             v = self._uri_cache[key] = uri
